@@ -1,5 +1,5 @@
 """Hermetic, resource-limited tool runs and scratch management."""
-import os, sys, subprocess, resource, shutil, tempfile, atexit, struct, signal
+import re, os, sys, subprocess, resource, shutil, tempfile, atexit, struct, signal
 
 VERIF = os.path.dirname(os.path.dirname(os.path.abspath(__file__)))
 FAKE_TIME = 1700000000
@@ -31,6 +31,8 @@ def _mk():
         if os.getpid() == pid: shutil.rmtree(d, ignore_errors=True)
     atexit.register(cleanup)
 _scratch_pid = None
+
+_SIGCATCHER = re.compile(r'^Signal \((\d+)\) SIG[A-Z0-9]+ ', re.M)
 
 class Proc:
     __slots__ = ('rc', 'out', 'err', 'sig', 'cpu_limit_hit', 'truncated')
@@ -78,6 +80,11 @@ def run(cmd, env=None, cpu=20, stdin=None, cwd=None, max_out=1 << 20, as_mb=4096
     r.err = '' if merge else bytes(bufs[p.stderr]).decode('latin-1')
     r.rc = p.returncode if p.returncode >= 0 else None
     r.sig = -p.returncode if p.returncode < 0 else None
+    if r.rc == 8:
+        # e2fsck installs its own handler for the fatal signals (e2fsck/sigcatcher.c): it prints 'Signal (N) SIG...' with a backtrace and exits 8. That is a crash,
+        # not an operational error - report it as death by that signal.
+        m = _SIGCATCHER.search(r.out) or _SIGCATCHER.search(r.err)
+        if m: r.sig = int(m.group(1)); r.rc = None
     r.cpu_limit_hit = r.sig in (signal.SIGXCPU, signal.SIGKILL) and not r.truncated
     return r
 
